@@ -52,6 +52,12 @@ FUNCTIONS = [
     "nessai.reparameterisations.get_reparameterisation",
     "nessai.priors.log_uniform_prior",
     "nessai.priors.log_2d_cartesian_prior",
+    "nessai.gw.reparameterisations.DeltaPhaseReparameterisation.reparameterise",
+    "nessai.gw.reparameterisations.DeltaPhaseReparameterisation.inverse_reparameterise",
+    "nessai.gw.reparameterisations.DistanceReparameterisation.__init__",
+    "nessai.gw.utils.PowerLawConverter.to_uniform_parameter",
+    "nessai.gw.utils.PowerLawConverter.from_uniform_parameter",
+    "nessai.gw.reparameterisations.get_gw_reparameterisation",
 ]
 BOUNDS = {
     "quick": dict(points_per_batch="2 independent symbolic points (angle maps: 1 point, with the Jacobian ratio compared to its closed-form constant)", parameters_per_reparameterisation="<=3", prior_bounds="symbolic lo<hi (angles: the documented fixed ranges)", configurations="see unit list"),
@@ -65,7 +71,7 @@ ASSUMPTIONS = [
     "sqrt(u) is the non-negative root",
     "the random choice of which points are reflected (inversion 'split', ToCartesian 'split') is arbitrary (forked)",
 ]
-OUTSIDE = ["the gravitational-wave reparameterisations (distance converters, delta-phase)", "the prime priors of ToCartesian / AnglePair", "the comoving-distance converter of the GW reparameterisations (astropy, spline tables)", "detect_edge's histogram heuristic (its result is a symbolic choice through the code's own test= hook)",
+OUTSIDE = ["non-integer powers of the GW power-law distance converter; DistanceReparameterisation without boundary_inversion (the constructor raises AttributeError)", "the prime priors of ToCartesian / AnglePair", "the comoving-distance converter of the GW reparameterisations (astropy, spline tables)", "detect_edge's histogram heuristic (its result is a symbolic choice through the code's own test= hook)",
            "rounding near the bounds (the eps clip of logit is a branch, not measured)", "combinations of more than two reparameterisations"]
 
 PARALLEL_UNITS = True
@@ -147,7 +153,7 @@ RTB_CONFIGS = {
 }
 
 
-def _check_1d(ctx, rp, names, X, fwd_kwargs, has_prior, box, mut=None, at_bounds=False):
+def _check_1d(ctx, rp, names, X, fwd_kwargs, has_prior, box, mut=None, at_bounds=False, log_prior=None):
     """X: dict name -> list of symbolic points. Runs forward with a unit tangent on each parameter in turn."""
     snp = _snp(ctx)
     n = len(next(iter(X.values())))
@@ -193,7 +199,11 @@ def _check_1d(ctx, rp, names, X, fwd_kwargs, has_prior, box, mut=None, at_bounds
         for k in range(m):
             ctx.prove_eq(lp[k] if np.ndim(lp) else lp, 0.0, "R4 points of the prior box are inside the support of the prime prior (uniform: log-density 0)")
         for k in range(1, m):
-            ctx.prove_eq(_plain(lj[k]), _plain(lj[0]), "R4 uniform prime prior: the Jacobian is constant, so prime prior = prior / Jacobian up to a constant")
+            if log_prior is None:
+                ctx.prove_eq(_plain(lj[k]), _plain(lj[0]), "R4 uniform prime prior: the Jacobian is constant, so prime prior = prior / Jacobian up to a constant")
+            else:
+                ctx.prove_eq(_plain(lj[k]) - log_prior(k % n), _plain(lj[0]) - log_prior(0),
+                             "R4 uniform prime prior = original (non-uniform) prior / Jacobian up to a constant")
     return results
 
 
@@ -551,6 +561,103 @@ def make_angle_pair(convention, radial):
     return body
 
 
+def make_delta_phase():
+    """GW: delta_phase = phase + sign(cos theta_jn) * psi, inverse modulo 2 pi."""
+    def body(ctx):
+        from nessai.gw.reparameterisations import DeltaPhaseReparameterisation
+        snp = _snp(ctx)
+        pi = _pi(ctx)
+        rp = DeltaPhaseReparameterisation(parameters=["phase"], prior_bounds={"phase": [0.0, 2 * pi]})
+        names = ["phase", "psi", "theta_jn"]
+        x = _struct(ctx, names, 1)
+        ph = ctx.real("phase", 0, 7)
+        ctx.assume((ph >= 0) & (ph < 2 * pi))
+        psi = ctx.real("psi", 0, 4)
+        ctx.assume((psi >= 0) & (psi < pi))
+        th = ctx.real("theta_jn", 0, 4)
+        ctx.assume((th >= 0) & (th <= pi))
+        x["phase"][0], x["psi"][0], x["theta_jn"][0] = ph, psi, th
+        xp = _struct(ctx, ["delta_phase"], 1)
+        x, xp, lj = rp.reparameterise(x, xp, _zeros(ctx, 1))
+        xb = x.copy()
+        xb["phase"][0] = 0.0
+        xb, _, lj2 = rp.inverse_reparameterise(xb, xp, _zeros(ctx, 1))
+        ctx.prove_eq(xb["phase"][0], ph, "R1 inverse(forward(phase)) = phase on [0, 2 pi)")
+        ctx.prove_eq(lj[0], 0.0, "delta-phase shift has zero log-Jacobian")
+        ctx.prove_eq(lj2[0], 0.0, "and so has its inverse")
+        ctx.cover("end")
+    return body
+
+
+def make_distance(power, variant):
+    """GW: DistanceReparameterisation with the power-law converter (integer power)."""
+    def body(ctx):
+        from nessai.gw.reparameterisations import DistanceReparameterisation
+        lo, hi = ctx.real("d_min", 1, 50), ctx.real("d_max", 1, 50)
+        ctx.assume(lo < hi)
+        kw = dict(prior="power-law", converter_kwargs=dict(power=power, scale=10.0))
+        fwd = {}
+        # (without boundary_inversion the constructor raises AttributeError on detect_edges_kwargs: not a configuration
+        # the proposal accepts; see DESIGN, observations outside the properties)
+        upd = bool(ctx.choice("after_update", 2))
+        kw.update(boundary_inversion=True, inversion_type="duplicate", update_bounds=upd)
+        fwd["test"] = variant    # 'upper' or False through the code's own hook
+        rp = DistanceReparameterisation(parameters=["d"], prior_bounds={"d": [lo, hi]}, **kw)
+        if upd:
+            xt = _struct(ctx, ["d"], 2)
+            a, b = ctx.real("ta", 1, 50), ctx.real("tb", 1, 50)
+            ctx.assume((lo <= a) & (a < b) & (b <= hi))
+            xt["d"][0], xt["d"][1] = a, b
+            rp.update(xt)
+        X = {"d": []}
+        for i in range(2):
+            v = ctx.real(f"d{i}", 1, 50)
+            ctx.assume((v > lo) & (v < hi))
+            if upd:
+                ctx.assume((a <= v) & (v <= b))
+            X["d"].append(v)
+        snp = _snp(ctx)
+        _check_1d(ctx, rp, ["d"], X, fwd, True, None, log_prior=lambda i: power * snp.log(X["d"][i]))
+        ctx.cover("end")
+    return body
+
+
+def make_gw_registry():
+    def body(ctx):
+        from nessai.gw.reparameterisations import get_gw_reparameterisation, default_gw
+        from nessai.reparameterisations import RescaleToBounds, AnglePair
+        ctx.prove(default_gw["time"][0] is RescaleToBounds and default_gw["mass"][0] is RescaleToBounds and default_gw["mass_ratio"][0] is RescaleToBounds,
+                  "GW names time / mass / mass_ratio map to RescaleToBounds")
+        ctx.prove(default_gw["sky-ra-dec"][0] is AnglePair and default_gw["sky-az-zen"][0] is AnglePair, "GW sky names map to AnglePair")
+        k = ["time", "mass", "mass_ratio"][ctx.choice("gw_name", 3)]
+        cls, kwargs = get_gw_reparameterisation(k)
+        kwargs = dict(kwargs or {})
+        lo, hi = ctx.real("lo", -5, 5), ctx.real("hi", -5, 5)
+        ctx.assume(lo < hi)
+        rp = cls(parameters=["x"], prior_bounds={"x": [lo, hi]}, **kwargs)
+        upd = bool(ctx.choice("after_update", 2))
+        if upd:
+            xt = _struct(ctx, ["x"], 2)
+            a, b = ctx.real("ta", -5, 5), ctx.real("tb", -5, 5)
+            ctx.assume((lo <= a) & (a < b) & (b <= hi))
+            xt["x"][0], xt["x"][1] = a, b
+            rp.update(xt)
+        X = {"x": []}
+        for i in range(2):
+            v = ctx.real(f"x{i}", -5, 5)
+            ctx.assume((lo < v) & (v < hi))
+            if upd and getattr(rp, "boundary_inversion", False):
+                # with boundary inversion the folded map is only injective inside the range it was fitted on
+                ctx.assume((a <= v) & (v <= b))
+            X["x"].append(v)
+        kw = {}
+        if getattr(rp, "boundary_inversion", False):
+            kw["test"] = ["lower", "upper", False][ctx.choice("edge", 3)]
+        _check_1d(ctx, rp, ["x"], X, kw, False, None)
+        ctx.cover("end")
+    return body
+
+
 def make_combined():
     def body(ctx):
         from nessai.reparameterisations.combined import CombinedReparameterisation
@@ -598,6 +705,13 @@ def units(tier):
     for conv in ("az-zen", "ra-dec"):
         for radial in (True, False):
             us.append(Unit(f"angle_pair[{conv},radial={radial}]", make_angle_pair(conv, radial), MODS, opts, expect_cover=["end"], twin_runs=10, witness_every=2, nproc=1, time_budget_s=600))
+    gw_mods = MODS + ["nessai.gw.reparameterisations", "nessai.gw.utils"]
+    us.append(Unit("gw_delta_phase", make_delta_phase(), gw_mods, opts, expect_cover=["end"], twin_runs=20, witness_every=1, nproc=1, time_budget_s=600))
+    for power in (1, 2):
+        for variant in ("upper", False):
+            us.append(Unit(f"gw_distance[power={power},{variant}]", make_distance(power, variant), gw_mods, dict(opts, exp_axioms="full"), expect_cover=["end"], twin_runs=10,
+                           witness_every=1, nproc=1, time_budget_s=600))
+    us.append(Unit("gw_registry[time,mass,mass_ratio]", make_gw_registry(), gw_mods, opts, expect_cover=["end"], twin_runs=30, witness_every=2, nproc=1, time_budget_s=900))
     us.append(Unit("combined[affine+logit]", make_combined(), MODS, opts, expect_cover=["end"], twin_runs=10, witness_every=2, nproc=1))
     us.append(Unit("registry_1d", make_registry(), MODS + ["nessai.reparameterisations"], opts, expect_cover=["end"], twin_runs=30, witness_every=2, nproc=1, time_budget_s=900))
     return us
